@@ -195,6 +195,20 @@ def _origin_ord(c: Ctx, f: Func, call: ast.Call, arg: ast.AST, depth: int = 0) -
         name = U(arg.func).split(".")[-1]
         if name in ("ord", "charCodeAt"):
             return f"value is the ordinal of an existing character ({name})"
+        cs = c.cg.site_of.get(arg)
+        if cs is not None and cs.callees and cs.kind in ("direct", "method") and depth < 3:
+            # a helper of the repository: every value it returns must have such an origin
+            hows = []
+            for g in cs.callees:
+                rets = [n for n in own_nodes(g.node) if isinstance(n, ast.Return) and n.value is not None]
+                if not rets:
+                    return ""
+                for rt in rets:
+                    h = _origin_ord(c, g, rt, rt.value, depth + 1)
+                    if not h:
+                        return ""
+                    hows.append(h)
+            return f"every return value of {cs.callees[0].short}: " + " / ".join(sorted(set(hows)))[:120]
         return ""
     if isinstance(arg, ast.Constant) and isinstance(arg.value, int) and 0 <= arg.value <= 0x10FFFF:
         return "constant"
